@@ -37,7 +37,8 @@ def shards(tier):
 
 def floors(tier):
     return {"compared": 30000, "accepted": 8000, "rejected": 8000, "mutated_depth2plus": 1000,
-            "metaschemas_self_accepted": 4, "keyword_shape_cells": 3000, "calibration_cases": 2000}
+            "metaschemas_self_accepted": 4, "keyword_shape_cells": 3000, "calibration_cases": 2000,
+            "dialects_registered": 4, "checked_after_dialect_registration": 400}
 
 
 def load_metaschemas():
@@ -132,6 +133,7 @@ def run(ctx):
             if ctx.mine(idx):
                 compare(ctx, O, d, shape)
     rng = ctx.rng
+    dialect_phase(ctx, random.Random(1111))
     for i in range(ctx.scale(1500, 25000)):
         d = impl.DRAFTS[i % 4]
         g = SchemaGen(rng, d, maxdepth=rng.choice([1, 2, 3]))
@@ -147,6 +149,67 @@ def run(ctx):
             compare(ctx, O, d, V.value(rng, 3))
         if i % 301 == 0:
             ctx.sample({"draft": d, "candidate": bad})
+
+
+def dialect_child(tier, seed, shard, nshards, d, cands):
+    """Forked child: register a dialect under the SAME metaschema id with a modified metaschema (the documented
+    extend-then-edit-META_SCHEMA workflow), then the stock class's check_schema must still follow ITS bundled
+    metaschema - including through the `$ref: "#"` / definitions references inside that metaschema."""
+    import copy
+    from jsonschema import validators
+    from vf.ctx import Ctx
+    c = Ctx("C11", tier, seed, shard, nshards)
+    impl.quiet()
+    O = Oracle()
+    base = impl.CLS[d]
+    D = validators.extend(base, version="vf-dialect-%d" % d)
+    meta = copy.deepcopy(base.META_SCHEMA)
+    props = meta.setdefault("properties", {})
+    props["title"] = {"type": "integer"}                       # stock: string
+    props["maxLength"] = {"type": "string"}                    # stock: non-negative integer
+    props["vf-extra"] = {"type": "null"}
+    if isinstance(meta.get("definitions"), dict):
+        for k in meta["definitions"]:
+            if "nteger" in k and isinstance(meta["definitions"][k], dict) and "minimum" in meta["definitions"][k]:
+                meta["definitions"][k]["minimum"] = 5
+    D.META_SCHEMA = meta
+    c.count("dialects_registered")
+    for cand in cands:
+        c.count("checked_after_dialect_registration")
+        compare(c, O, d, cand, tag="(after registering a dialect under the same metaschema id)")
+    return c.result()
+
+
+def dialect_phase(ctx, rng):
+    from vf.props.c18 import fork_run
+    for d in impl.DRAFTS:
+        if not ctx.mine(d):
+            continue
+        g = SchemaGen(rng, d, maxdepth=2)
+        cands = []
+        for t, ml, mi in (("ok", 1, 0), (5, 1, 0), ("ok", "x", 0), ("ok", 3, 2), ("ok", 1, -1), (None, 0, 7)):
+            leaf = {"title": t, "maxLength": ml, "minItems": mi}
+            cands += [leaf, {"properties": {"a": leaf}}, {"items": leaf}, {"items": [leaf]}, {"additionalProperties": leaf},
+                      {"properties": {"a": {"items": {"properties": {"b": leaf}}}}}, {"vf-extra": 1, "properties": {"a": {"vf-extra": 1}}}]
+            if d >= 4:
+                cands += [{"allOf": [leaf]}, {"not": leaf}, {"definitions": {"x": leaf}}, {"dependencies": {"a": leaf}}]
+            else:
+                cands += [{"extends": [leaf]}, {"type": [leaf]}, {"dependencies": {"a": leaf}}]
+        for _ in range(40):
+            S = g.schema()
+            cands.append(S)
+            bad, _w = mutate_schema(rng, d, S, n=1, extra_keywords=["title", "maxLength"])
+            cands.append(bad)
+        st, res = fork_run(lambda: dialect_child(ctx.tier, ctx.seed, ctx.shard, ctx.nshards, d, cands))
+        if st != "ok":
+            ctx.count("dialect_child_failed")
+            ctx.notes.setdefault("child_errors", []).append(str(res)[-500:])
+            continue
+        ctx.evaluations += res["evaluations"]
+        ctx.counters.update(res["counters"])
+        ctx.hashes.update(res["hashes"])
+        for v in res["violations"]:
+            ctx.violation(v["kind"], v["case"], v["detail"], mech=v["mech"])
 
 
 def replay(ctx, rec):
